@@ -108,6 +108,13 @@ pub fn run_seed(base: u64, family_idx: usize, i: u64) -> u64 {
     h3(base, family_idx as u64 + 1, i)
 }
 
+pub fn fam_seed(base: u64, fams: &[Family], fi: usize, i: u64) -> u64 {
+    match fams[fi].seed_mode {
+        families::SeedMode::Hashed => run_seed(base, fi, i),
+        families::SeedMode::Index => ((h3(base, fi as u64 + 1, 0) >> 24) << 20) | (i & 0xFFFFF),
+    }
+}
+
 /// Evaluate one scenario for one property: run + oracle (+ universal panic check).
 pub fn evaluate(property: &str, sc: &Scenario) -> (RunOutput, OracleResult) {
     let out = world::run(sc);
@@ -199,7 +206,7 @@ pub fn explore(o: &CheckOpts, fams: &[Family], known: &known::KnownFile) -> (Sta
                     }
                     let (fi, i) = plan[idx];
                     let fam = &fams[fi];
-                    let seed = run_seed(o.base_seed, fi, i);
+                    let seed = fam_seed(o.base_seed, fams, fi, i);
                     let sc = (fam.generate)(seed);
                     let (out, res) = evaluate(&o.property, &sc);
                     st.evaluations += 1;
@@ -389,7 +396,7 @@ pub fn selftest_determinism(property: &str, fams: &[Family], base: u64, n: u64) 
     let mut checked = 0;
     for (fi, fam) in fams.iter().enumerate() {
         for i in 0..n {
-            let seed = run_seed(base ^ 0xD37E, fi, i);
+            let seed = fam_seed(base ^ 0xD37E, fams, fi, i);
             let sc = (fam.generate)(seed);
             let a = world::run(&sc);
             let sc2 = sc.clone();
